@@ -256,6 +256,7 @@ type nodeSim struct {
 	cur     map[string]stored // model of the stored state between observations (C13 history of stored digests)
 	taint   map[string]bool   // keys excluded after a known finding
 	subs    []*subscriber
+	lostAtStop []opID // operations that were infected here when the node last stopped
 	markers []string // marker keys currently infected in the node's gossip store
 	// C13 bookkeeping: which changes reached the node on which path
 	localChg    map[chg]int
@@ -1070,6 +1071,15 @@ func (s *sim) handleFeedback(fbs []*fbMsg, mode, what string) error {
 	return nil
 }
 
+func hasPrefixKey(m map[string]bool, p string) bool {
+	for k := range m {
+		if strings.HasPrefix(k, p) {
+			return true
+		}
+	}
+	return false
+}
+
 func sortedOps(m map[string]opRec) []opRec {
 	out := make([]opRec, 0, len(m))
 	for _, o := range m {
@@ -1355,7 +1365,8 @@ func (s *sim) stop(n *nodeSim, step string) error {
 		return err
 	}
 	for _, w := range inf {
-		s.note(w.ID, "infected-set-lost-on-restart")
+		s.note(w.ID, "lost@"+n.label())
+		n.lostAtStop = append(n.lostAtStop, w.ID)
 		s.event("%s: %s stops while %s is still infected there", step, n.label(), w.ID)
 		s.rep.Class("stop-with-infected-ops")
 	}
@@ -1449,6 +1460,18 @@ func (s *sim) start(n *nodeSim, order []int, step string) error {
 			s.rep.Class("recovery-moved-ops")
 		}
 	}
+	// operations that were infected here at the stop and are infected again after the start
+	// (a tree that restores the gossip store) were not lost
+	inf, _, err := s.probe(n)
+	if err != nil {
+		return err
+	}
+	for _, id := range n.lostAtStop {
+		if o, ok := inf[id.Key]; ok && o.ID == id {
+			delete(s.opEvents[id], "lost@"+n.label())
+		}
+	}
+	n.lostAtStop = nil
 	s.attachInitialSubscribers(n)
 	return nil
 }
@@ -1614,7 +1637,7 @@ func (s *sim) checkConverged() error {
 				cause = "overwritten"
 			case ev["displaced-by-feedback"]:
 				cause = "displaced-by-feedback"
-			case ev["infected-set-lost-on-restart"]:
+			case hasPrefixKey(ev, "lost@"):
 				cause = "infected-set-lost-on-restart"
 			case s.skipped[win.ID][n.idx]:
 				cause = "recovery-skipped"
